@@ -189,6 +189,8 @@ class DriverError(Exception):
 # ----------------------------------------------------------------------------------------------
 # Coq side
 def ensure_coq_built(ctx=None):
+    if os.environ.get("VERIF_SKIP_MAKE"):
+        return True, ""
     """(Re)build the static Coq development if out of date (no-op when setup_cmd was run)."""
     lock = open(os.path.join(COQ, ".build.lock"), "w")
     fcntl.flock(lock, fcntl.LOCK_EX)
